@@ -524,15 +524,9 @@ def build_sampler(info):
             elif which == "glrp":
                 legal = l >= 1 and r >= 1 and 0 <= x <= 1
             else:
-                legal = l >= 0 and r >= 0 and x >= 0 and r > 0 and (l * x) % r == 0 and x <= r
+                legal = l >= 0 and r >= 0 and 0 <= x <= r and (r == 0 or (l * x) % r == 0)
             if not clean(e):
-                if which == "regular" and isinstance(e, ZeroDivisionError) and r == 0:
-                    case.cls = "regular:lib-r==0"
-                    return {"defect": case.cls, "exception": "ZeroDivisionError", "args": a}
-                if which == "regular" and isinstance(e, RecursionError) and x > r:
-                    case.cls = "regular:lib-d>r"
-                    return {"defect": case.cls, "exception": "RecursionError", "args": a}
-                if which == "regular" and isinstance(e, RecursionError) and legal and mode != "seed":
+                if which == "regular" and isinstance(e, RecursionError) and legal and r > 0 and mode != "seed":
                     # an adversarial draw sequence may make every attempt fail: covered by the fuel of the theorem
                     return None
                 if which == "glrm" and x > l * r // 3:
@@ -566,7 +560,7 @@ def build_sampler(info):
             if (x == 1 and len(es) != l * r):
                 return {"defect": "glrp:p=1-not-complete"}
         else:
-            if any(d != x for d in dl) or any(d != l * x // r for d in dr):
+            if any(d != x for d in dl) or any(d != l * x // r for d in dr) or (r == 0 and len(es) != 0):
                 case.cls = "regular:not-biregular"
                 return {"defect": case.cls, "left_degrees": dl, "right_degrees": dr, "args": a}
         return None
@@ -1010,10 +1004,7 @@ def build_cli(info):
                 return {"defect": case.cls, "spec": spec}
             return None
         if not legal:
-            if cname in ("grid", "torus") and len(toks) == 0:
-                case.cls = "grid:no-dimensions"
-            else:
-                case.cls = label + ":accepted-illegal"
+            case.cls = label + ":accepted-illegal"
             return {"defect": case.cls, "spec": spec, "got": list(base[:2])}
         r = check_construction(gtype, cname, toks, base)
         if r is not None:
@@ -1226,9 +1217,11 @@ def cases(ctx):
     infos.append(("shift", dict(N=3, M=4, pattern=[2, 0, 1])))                                     # D9
     infos.append(("cli", dict(gtype="simple", spec=["gnd", "4", "4"], rseed=1)))                   # D16
     infos.append(("argparse", dict(gtype="simple", spec=["gnd", "2", "2"], rseed=1)))              # D16
-    infos.append(("sampler", dict(which="regular", args=[2, 0, 1], mode="seed", rseed=1)))         # lib: r = 0
-    infos.append(("sampler", dict(which="regular", args=[1, 1, 2], mode="seed", rseed=1)))         # lib: d > r
-    infos.append(("cli", dict(gtype="simple", spec=["grid"], rseed=1)))                            # no dimensions
+    infos.append(("sampler", dict(which="regular", args=[2, 0, 1], mode="seed", rseed=1)))         # C15-F1: r = 0
+    infos.append(("sampler", dict(which="regular", args=[3, 0, 0], mode="seed", rseed=1)))         # C15-F1: r = 0, d = 0
+    infos.append(("sampler", dict(which="regular", args=[0, 0, 0], mode="seed", rseed=1)))
+    infos.append(("sampler", dict(which="regular", args=[1, 1, 2], mode="seed", rseed=1)))         # C15-F2: d > r
+    infos.append(("cli", dict(gtype="simple", spec=["grid"], rseed=1)))                            # C15-F3: no dimensions
     infos.append(("cli", dict(gtype="simple", spec=["torus"], rseed=1)))
     infos.append(("cli", dict(gtype="simple", spec=["torus", "1", "3"], rseed=1)))
     infos.append(("cli", dict(gtype="bipartite", spec=["glrd", "5", "6", "2", "plantbiclique", "2", "2"], rseed=3)))
@@ -1408,7 +1401,7 @@ def cases(ctx):
 def search_global(ctx):
     """a proof obligation no longer checks: evaluate the property itself (oracle only, no model) on the
     quick-tier inputs and return the first failing input that is not a recorded finding"""
-    known = {"regular:lib-r==0", "regular:lib-d>r", "grid:no-dimensions"}
+    known = set()
     for c in cases({"tier": "quick", "seed": ctx.get("seed", 0), "prop": "C15"}):
         common.run_impl(c)
         r = common.run_oracle(c)
